@@ -73,7 +73,26 @@ Apply(s, call) ==
       [] call.op = "Close" ->
            [s |-> [s EXCEPT !.cur[call.i] = Closed], res |-> [op |-> "Close", i |-> call.i]]
 
+\* ---- n calls of Next in a row on iterator i, in closed form (used by OrderedMapTrace for NextN lines, where n is in
+\* the hundreds).  NOT a second contract: the invariant NextNAgrees says, on every reachable state of the model, that
+\* it is Apply applied n times (number of ok replies, last reply, final state).
+RestOf(s, i) == SelectSeq(s.live, LAMBDA e : e.id >= s.cur[i])
+NextNDirect(s, i, n) ==
+    LET rest == RestOf(s, i)
+        m    == Len(rest)
+    IN [s    |-> [s EXCEPT !.cur[i] = IF n < m THEN rest[n + 1].id ELSE s.nextId],
+        oks  |-> IF n < m THEN n ELSE m,
+        last |-> IF n >= 1 /\ n <= m THEN [ok |-> TRUE, k |-> rest[n].k, v |-> rest[n].v]
+                 ELSE [ok |-> FALSE, k |-> "", v |-> 0]]
+RECURSIVE NextNIter(_, _, _, _, _)
+NextNIter(s, i, n, oks, last) ==
+    IF n = 0 THEN [s |-> s, oks |-> oks, last |-> last]
+    ELSE LET a == Apply(s, [op |-> "Next", i |-> i])
+         IN NextNIter(a.s, i, n - 1, oks + (IF a.res.ok THEN 1 ELSE 0), [ok |-> a.res.ok, k |-> a.res.k, v |-> a.res.v])
+
 St == [live |-> live, cur |-> cur, nextId |-> nextId]
+NextNAgrees == \A i \in Iters : cur[i] # Closed =>
+                 \A n \in 0 .. 4 : NextNDirect(St, i, n) = NextNIter(St, i, n, 0, [ok |-> FALSE, k |-> "", v |-> 0])
 
 \* which calls are legal in state s (an iterator is used only while open; adds are bounded)
 Enabled(s, call) ==
